@@ -72,39 +72,7 @@ def run(ctx):
     excm = ctx.excm(['playback.tape_cassette'])
     pol = ListingPolicy(repo, excm)
 
-    # ---------------- C10.a loop-based siblings
-    for c in (mem, fil):
-        it = c.lookup('iter_recording_ids')
-        dom = small.analyse(repo, excm, it, policy=pol, self_cls=c, domain=ListingDomain)
-        ca.evaluations += dom.visited_pairs
-        site_label = {dom.site(n.ast): t.label for n, t in dom.builder.call_sites}
-        cat = ('free', it.qualname, it.params[1])
-        bad = None
-        n_adds = 0
-        for node, st in dom.adds:
-            n_adds += 1
-            ok = False
-            for k, f in st.facts.items():
-                if isinstance(k, tuple) and k and k[0] == 'cmp' and len(k) == 4 and k[1] in ('Eq', 'NotEq'):
-                    operands = (k[2], k[3])
-                    if cat in operands:
-                        other = operands[0] if operands[1] == cat else operands[1]
-                        from_extract = isinstance(other, tuple) and other and other[0] == 'call' and \
-                            'extract_recording_category' in site_label.get(other[2], '')
-                        if from_extract and ((k[1] == 'Eq' and f[1] is True) or (k[1] == 'NotEq' and f[1] is False)):
-                            ok = True
-            if not ok:
-                bad = bad or (node, st)
-        ca.instance('%s: every id added to the result passed `extract_recording_category(id) == category`' % c.name, it.qualname,
-                    bad is None and n_adds > 0, detail='%d add states' % n_adds)
-        if bad or not n_adds:
-            node, st = bad if bad else (None, None)
-            res.add(Finding('C10', 'C10.a', 'R-SIBLING', it.file, it.qualname, node.line if node else it.node.lineno,
-                            ast.unparse(node.ast) if node else 'result construction',
-                            '%s adds an id to the listing on a path that never compared the requested category for equality with the '
-                            'category extracted from that id: categories that are prefixes of one another (or contain the file-name '
-                            'delimiter) are confused; the sibling cassettes compare exactly' % c.name,
-                            witness=dom.path_to(node, st) if node is not None and (node.id, st.key()) in dom.pred else None))
+    category_exactness_loops(ctx, res, ca, 'C10', 'C10.a', pol, excm, (mem, fil))
     # S3: prefix = category + delimiter
     gp = None
     for m in s3.methods.values():
@@ -265,3 +233,39 @@ def run(ctx):
             res.add(Finding('C10', 'C10.f', 'R-AGREE', lk.file, lk.qualname, c0.lineno, '%s=%s' % (kw, norm(v) if v is not None else 'missing'),
                             'the lookup helper does not forward %s unchanged from the lookup properties' % kw))
     return res
+
+
+def category_exactness_loops(ctx, res, ca, prop, cid, pol, excm, classes):
+    repo = ctx.repo
+    for c in classes:
+        it = c.lookup('iter_recording_ids')
+        dom = small.analyse(repo, excm, it, policy=pol, self_cls=c, domain=ListingDomain)
+        ca.evaluations += dom.visited_pairs
+        site_label = {dom.site(n.ast): t.label for n, t in dom.builder.call_sites}
+        cat = ('free', it.qualname, it.params[1])
+        bad = None
+        n_adds = 0
+        for node, st in dom.adds:
+            n_adds += 1
+            ok = False
+            for k, f in st.facts.items():
+                if isinstance(k, tuple) and k and k[0] == 'cmp' and len(k) == 4 and k[1] in ('Eq', 'NotEq'):
+                    operands = (k[2], k[3])
+                    if cat in operands:
+                        other = operands[0] if operands[1] == cat else operands[1]
+                        from_extract = isinstance(other, tuple) and other and other[0] == 'call' and \
+                            'extract_recording_category' in site_label.get(other[2], '')
+                        if from_extract and ((k[1] == 'Eq' and f[1] is True) or (k[1] == 'NotEq' and f[1] is False)):
+                            ok = True
+            if not ok:
+                bad = bad or (node, st)
+        ca.instance('%s: every id added to the result passed `extract_recording_category(id) == category`' % c.name, it.qualname,
+                    bad is None and n_adds > 0, detail='%d add states' % n_adds)
+        if bad or not n_adds:
+            node, st = bad if bad else (None, None)
+            res.add(Finding(prop, cid, 'R-SIBLING', it.file, it.qualname, node.line if node else it.node.lineno,
+                            ast.unparse(node.ast) if node else 'result construction',
+                            '%s adds an id to the listing on a path that never compared the requested category for equality with the '
+                            'category extracted from that id: categories that are prefixes of one another (or contain the file-name '
+                            'delimiter) are confused; the sibling cassettes compare exactly' % c.name,
+                            witness=dom.path_to(node, st) if node is not None and (node.id, st.key()) in dom.pred else None))
